@@ -191,7 +191,7 @@ class C32(Prop):
         return rng.choice([None, True, 3, "text", old + "/looks/like/a/path", "file://" + old + "/u", 2.5, ""])
 
     def gen(self, rng, tier):
-        n = {"quick": 700, "thorough": 6000, "extended": 5000}[tier]
+        n = {"quick": 700, "thorough": 3000, "extended": 3000}[tier]
         cases = []
         for _ in range(n):
             old, new = self._dir(rng), self._dir(rng)
